@@ -1,18 +1,19 @@
 package main
 
 // position: one scalar value position of the every-key workflows.
-//   Canon  canonical path of the position in the vocabulary of GitHub's table
-//          (written by hand from the workflow syntax; the oracle applies the
-//          longest-listed-prefix rule of DESIGN.md Appendix B to it).
-//   Root*  the call site of rule_expression.go the value is routed through, as
-//          the model (coq/Wf/Avail.v) identifies it: enclosing function, text
-//          of the first argument, occurrence index of that (function, argument)
-//          pair in the function; Subs = first-argument texts of the sites in
-//          the structured helpers below it (checkEnv, checkContainer, ...).
-//          Written by hand; a wrong entry shows as a correspondence mismatch.
-//   Form   0: value is a template string, planted as ${{ e }};
-//          1: bare `if:` condition, planted as e;
-//          2: mapping key (env variable name), planted as "${{ e }}".
+//
+//	Canon  canonical path of the position in the vocabulary of GitHub's table
+//	       (written by hand from the workflow syntax; the oracle applies the
+//	       longest-listed-prefix rule of DESIGN.md Appendix B to it).
+//	Root*  the call site of rule_expression.go the value is routed through, as
+//	       the model (coq/Wf/Avail.v) identifies it: enclosing function, text
+//	       of the first argument, occurrence index of that (function, argument)
+//	       pair in the function; Subs = first-argument texts of the sites in
+//	       the structured helpers below it (checkEnv, checkContainer, ...).
+//	       Written by hand; a wrong entry shows as a correspondence mismatch.
+//	Form   0: value is a template string, planted as ${{ e }};
+//	       1: bare `if:` condition, planted as e;
+//	       2: mapping key (env variable name), planted as "${{ e }}".
 type position struct {
 	ID      string
 	Variant int
@@ -23,6 +24,14 @@ type position struct {
 	Subs    []string
 	Base    string
 	Form    int
+	// MaybeUnrouted: on the pinned tree no call site of rule_expression.go
+	// receives this value (DESIGN.md Appendix A #2-#4: defects of C03, to be
+	// repaired in the repository by C03's fix patches).  Whether the position is
+	// routed is probed on every run by planting a malformed placeholder; while
+	// it is not, the position is no C12 verdict and is skipped (and counted);
+	// once it is, it is checked like every other position, through the call
+	// site given here (the one the repaired code is expected to have).
+	MaybeUnrouted bool
 }
 
 const (
@@ -134,5 +143,9 @@ var positions = []position{
 	{ID: "jobs.steps.with.input", Canon: st + "with.<with_id>", RootFn: "VisitStep", RootArg: "i.Value", RootOcc: 1, Base: "1"},
 	{ID: "jobs.steps.with.entrypoint", Canon: st + "with.entrypoint", RootFn: "VisitStep", RootArg: "e.Entrypoint", Base: "/bin/sh"},
 	{ID: "jobs.steps.with.args", Canon: st + "with.args", RootFn: "VisitStep", RootArg: "e.Args", Base: "-c true"},
+	{ID: "on.workflow_call.inputs.required", Variant: 2, Canon: "on.workflow_call.inputs.<inputs_id>.required", RootFn: "VisitWorkflowPre", RootArg: "i.Required", RootOcc: 1, Base: "true", MaybeUnrouted: true},
+	{ID: "on.workflow_call.secrets.required", Variant: 2, Canon: "on.workflow_call.secrets.<secret_id>.required", RootFn: "VisitWorkflowPre", RootArg: "s.Required", Base: "true", MaybeUnrouted: true},
+	{ID: "jobs.strategy.matrix.include-elem-expr", Variant: 2, Canon: jb + "strategy.matrix.include", RootFn: "checkMatrix", RootArg: "combi.Expression", RootOcc: 1, Base: "${{ fromJSON('{}') }}", MaybeUnrouted: true},
+	{ID: "jobs.container.ports-with-volumes", Variant: 2, Canon: jb + "container.ports", RootFn: "VisitJobPre", RootArg: "n.Container", Subs: []string{"c.Ports"}, Base: "80", MaybeUnrouted: true},
 	{ID: "jobs.steps.with.script", Canon: st + "with.<with_id>", RootFn: "VisitStep", RootArg: "i.Value", Base: "return 1"},
 }
